@@ -321,6 +321,7 @@ func (e *Env) Generate(v Variant) (*GenResult, error) {
 	for ai, alt := range v.C.Alts {
 		ac := v.C
 		ac.Channel = alt.Channel
+		ac.YamlStyle = alt.YamlStyle
 		ad := v.D
 		if len(alt.Msgs) > 0 {
 			ad.Msgs = alt.Msgs
